@@ -18,7 +18,7 @@ void harness(void)
 	for (i = 0; i < TOTMAX; i++) V_REQ(IMP(i < ftotal, flat[i] < 128));   /*@assume: message text is ASCII (ctype table model) */
 #if defined(UNIT_TOK)
 	{
-		char in_tok[3], in_com[3], in_esc[3]; IN(int, in_has_tok); IN(int, in_has_com); IN(int, in_has_esc);
+		char in_tok[3], in_com[3], in_esc[3]; IN(int, in_has_tok); IN(int, in_has_com); IN(int, in_has_esc); V_FILL(in_tok); V_FILL(in_com); V_FILL(in_esc);
 		ssize_t a, b;
 		in_tok[2] = in_com[2] = in_esc[2] = 0;
 		V_REQ(in_tok[0] >= 0 && in_tok[1] >= 0 && in_com[0] >= 0 && in_com[1] >= 0 && in_esc[0] >= 0 && in_esc[1] >= 0);
@@ -33,7 +33,7 @@ void harness(void)
 	}
 #elif defined(UNIT_STR)
 	{
-		uint8_t in_match[2]; IN(size_t, in_mlen); ssize_t a, b, c, d;
+		uint8_t in_match[2]; IN(size_t, in_mlen); ssize_t a, b, c, d; V_FILL(in_match);
 		V_REQ(in_mlen <= 2);
 		a = mpt_memstr(fv, 3, in_match, in_mlen);  b = mpt_memstr(&fvec, 1, in_match, in_mlen);
 		c = mpt_memrstr(fv, 3, in_match, in_mlen); d = mpt_memrstr(&fvec, 1, in_match, in_mlen);
